@@ -415,8 +415,14 @@ class BatteryDistributionAlgorithm:
         for pair in components:
             battery, inverters = pair
             capacity_ratio = battery.capacity / total_capacity
-            soc_factor: float = pow(
-                available_soc[battery.component_id], self._distributor_exponent
+            # A battery without available SoC must not be used.  This has to be checked
+            # explicitly, because pow(0.0, 0) == 1.0 for a distributor exponent of 0.
+            soc_factor: float = (
+                0.0
+                if is_close_to_zero(available_soc[battery.component_id])
+                else pow(
+                    available_soc[battery.component_id], self._distributor_exponent
+                )
             )
 
             ratio = capacity_ratio * soc_factor
